@@ -193,7 +193,11 @@ pub fn convert_amount<'ctx>(
     date: NaiveDate,
 ) -> Result<Amount<'ctx>, ConversionError<'ctx>> {
     let mut result = Amount::zero();
-    for v in amount.iter() {
+    // sum up in a fixed order: decimal addition may round, and the first
+    // commodity without rate is the one reported.
+    let mut values: Vec<SingleAmount<'ctx>> = amount.iter().collect();
+    values.sort_by_key(|v| v.commodity.as_str());
+    for v in values {
         result += price_repos.convert_single(v, commodity_with, date)?;
     }
     Ok(result)
